@@ -68,3 +68,27 @@ Proof. exact image_pair_impermeable. Qed.
 Print Assumptions C08_ground_plane_impermeable.
 
 
+
+(* ---- far from the ground (Real/KernelDecay.v) ----
+   every image vortex is at least 2 h - (extent of the geometry) away from every evaluation point, and its trailing legs,
+   parallel to the plane, keep that perpendicular distance: each component of the image block of the influence
+   matrices is bounded by 1 / (2 pi distance) per segment / leg, hence tends to zero as the height grows.
+   (segments: end vectors at an acute angle, i.e. the point is farther away than the segment is long) *)
+From OAS Require Import KernelDecay.
+Theorem C08_image_segment_induction_bounded_by_inverse_distance :
+  forall (r1 r2 : nat -> R) d h,
+    0 < h -> h <= nrm r1 -> h <= nrm r2 -> 0 <= dot r1 r2 -> Rabs (fv r1 r2 d) <= 1 / (2 * PI * h).
+Proof. exact fv_decay. Qed.
+Print Assumptions C08_image_segment_induction_bounded_by_inverse_distance.
+
+Theorem C08_image_segment_induction_vanishes_far_away :
+  forall eps, 0 < eps -> exists H, 0 < H /\
+    forall r1 r2 d, H <= nrm r1 -> H <= nrm r2 -> 0 <= dot r1 r2 -> Rabs (fv r1 r2 d) < eps.
+Proof. exact fv_vanishes_far_away. Qed.
+Print Assumptions C08_image_segment_induction_vanishes_far_away.
+
+Theorem C08_image_wake_leg_induction_bounded_by_inverse_distance :
+  forall (u r : nat -> R) d p,
+    dot u u = 1 -> 0 < p -> p * p <= dot r r - dot u r * dot u r -> Rabs (semi u r d) <= 1 / (2 * PI * p).
+Proof. exact semi_decay. Qed.
+Print Assumptions C08_image_wake_leg_induction_bounded_by_inverse_distance.
